@@ -29,6 +29,7 @@ import (
 )
 
 var c8posType = reflect.TypeOf(token.Pos{})
+var c8braceEllipsisLine = regexp.MustCompile(`(?m)^\s*\}, \.\.\.$`)
 var c8plainIdent = regexp.MustCompile(`^[\p{L}$][\p{L}\p{Nd}_$]*$`)
 
 func c8normString(lit string) string {
@@ -263,7 +264,13 @@ func c8checkSimplify(src []byte) (out []byte, res *c8result) {
 		return out, &c8result{"s:second-pass-error", err.Error()}
 	}
 	if !bytes.Equal(out, out2) {
-		return out, &c8result{"s:not-idempotent", "second -s pass differs\n--- first\n" + string(out) + "\n--- second\n" + string(out2)}
+		class := "s:not-idempotent"
+		// recorded finding: after a label was unquoted in a one-line struct that ends in `...`, the first pass
+		// leaves "}, ..." on one line and the second pass moves the ellipsis to its own line (layout only)
+		if c8diff(c8stream(out), c8stream(out2)) == "" && c8braceEllipsisLine.Match(out) && !c8braceEllipsisLine.Match(out2) {
+			class = "s:not-idempotent:layout-of-ellipsis-after-closing-brace"
+		}
+		return out, &c8result{class, "second -s pass differs\n--- first\n" + string(out) + "\n--- second\n" + string(out2)}
 	}
 	out3, err := format.Source(out)
 	if err != nil {
@@ -285,60 +292,115 @@ func c8labelProgram(r *rand.Rand) string {
 	special := []string{"_h", "#d", "_#e", "__x", "for", "if", "let", "in", "true", "null", "_", "a-b", "a b", "0a", "", "é", "a.b", "$x", "a_b", "A1", "string", "int", "len", "close", "self", "try", "fallback", "otherwise", "div", "and", "or"}
 	const (
 		pending = iota + 1
-		scalarDone
-		structField
+		intDone // a finished field whose value is a known integer
+		other   // a struct, list, string, optional field ...: never referenced
 	)
-	type scope map[string]int
+	type ent struct{ st, val int }
+	type scope map[string]ent
 	var scopes []scope
 	var b strings.Builder
 	top := scope{}
-	for _, n := range names {
-		fmt.Fprintf(&b, "%s: %d\n", n, 100+r.IntN(3))
-		top[n] = scalarDone
+	perm := r.Perm(3)
+	for i, n := range names {
+		fmt.Fprintf(&b, "%s: %d\n", n, perm[i])
+		top[n] = ent{intDone, perm[i]}
 	}
+	b.WriteString("xs: [{f: 10, g: [1, 2, 3], h: i: 1}, {f: 11, g: [4, 5, 6], h: i: 2}, {f: 12, g: [7, 8, 9], h: i: 3}, {f: 13, g: [0, 0, 0], h: i: 4}, {f: 14, g: [1, 1, 1], h: i: 5}]\n")
 	scopes = append(scopes, top)
-	// a name whose nearest binding is a finished scalar field, or ""
-	ref := func() string {
+	// a name whose nearest binding is a finished integer field (and its value), or a literal
+	atom := func() (string, int) {
 		for try := 0; try < 6; try++ {
 			n := names[r.IntN(len(names))]
 			for i := len(scopes) - 1; i >= 0; i-- {
-				if st, ok := scopes[i][n]; ok {
-					if st == scalarDone {
-						return n
+				if e, ok := scopes[i][n]; ok {
+					if e.st == intDone {
+						return n, e.val
 					}
 					break
 				}
 			}
 		}
-		return ""
+		v := r.IntN(3)
+		return fmt.Sprint(v), v
 	}
-	value := func() string {
-		n := ref()
-		if n == "" {
-			return fmt.Sprint(r.IntN(5))
-		}
-		switch r.IntN(8) {
-		case 0:
-			return fmt.Sprint(r.IntN(5))
-		case 1:
-			return n + " + 1"
-		case 2:
-			return fmt.Sprintf("[%s, %d]", n, r.IntN(3))
-		case 3:
-			return fmt.Sprintf("\"v\\(%s)\"", n)
-		case 4:
-			return fmt.Sprintf("{x: %s}.x", n)
-		case 5:
-			return fmt.Sprintf("[for v in [%s] {v}]", n)
+	// an expression with references in as many syntactic positions as there are: operands, index and slice
+	// operands (also below a selector), call arguments, comprehension clauses, interpolations, defaults.
+	// Returns the text, whether the value is an integer, and that integer.
+	value := func() (string, bool, int) {
+		n, v := atom()
+		m, w := atom()
+		idx := v >= 0 && v <= 4
+		switch k := r.IntN(30); {
+		case k == 0:
+			x := r.IntN(5)
+			return fmt.Sprint(x), true, x
+		case k == 1:
+			return n + " + 1", true, v + 1
+		case k == 2:
+			return fmt.Sprintf("[%s, %d]", n, r.IntN(3)), false, 0
+		case k == 3:
+			return fmt.Sprintf("\"v\\(%s)\"", n), false, 0
+		case k == 4:
+			return fmt.Sprintf("{x: %s}.x", n), true, v
+		case k == 5:
+			return fmt.Sprintf("[for v in [%s] {v}]", n), false, 0
+		case k == 6 && idx:
+			return fmt.Sprintf("xs[%s].f", n), true, 10 + v
+		case k == 7 && idx:
+			return fmt.Sprintf("xs[%s]", n), false, 0
+		case k == 8 && idx && w >= 0 && w <= 2:
+			return fmt.Sprintf("xs[%s].g[%s]", n, m), false, 0
+		case k == 9 && idx:
+			return fmt.Sprintf("(xs[%s]).f", n), true, 10 + v
+		case k == 10 && idx:
+			return fmt.Sprintf("xs[{i: %s}.i].f", n), true, 10 + v
+		case k == 11:
+			return fmt.Sprintf("len([%s, %s])", n, m), true, 2
+		case k == 12:
+			return fmt.Sprintf("div(%s, 1)", n), true, v
+		case k == 13:
+			return fmt.Sprintf("-%s", n), true, -v
+		case k == 14:
+			return fmt.Sprintf("(%s) * 2", n), true, 2 * v
+		case k == 15:
+			return fmt.Sprintf("%s == %s", n, m), false, 0
+		case k == 16:
+			return fmt.Sprintf("*%s | int", n), false, 0
+		case k == 17:
+			return fmt.Sprintf("[if %s >= 0 {%s}]", n, m), false, 0
+		case k == 18:
+			return fmt.Sprintf("[for v in [1, 2] if v > %s {v + %s}]", n, m), false, 0
+		case k == 19:
+			return fmt.Sprintf("[for v in [1] let w = %s {w}]", n), false, 0
+		case k == 20:
+			return fmt.Sprintf("{x: y: %s}.x.y", n), true, v
+		case k == 21:
+			return fmt.Sprintf("[%s, ...int]", n), false, 0
+		case k == 22:
+			return fmt.Sprintf("{%s}", n), true, v
+		case k == 23 && idx && w >= 0 && w <= 3:
+			return fmt.Sprintf("xs[%s].g[0:%s]", n, m), false, 0
+		case k == 24:
+			return fmt.Sprintf("{for k, v in {p: %s} {\"z\\(k)\": v}}", n), false, 0
+		case k == 25:
+			return fmt.Sprintf("{if %s < 5 {z: %s}}", n, m), false, 0
+		case k == 26:
+			return fmt.Sprintf("and([%s, int])", n), true, v
+		case k == 27 && idx:
+			return fmt.Sprintf("xs[%s].h.i", n), true, v + 1
+		case k == 28:
+			return fmt.Sprintf("%s & (int | string)", n), true, v
 		default:
-			return n
+			return n, true, v
 		}
 	}
+	val := func() string { t, _, _ := value(); return t }
 	type lab struct {
 		text, name string
 		ident      bool
 	}
 	label := func() lab {
+		// (raw-string labels #"a"# are re-quoted as "a" by the plain formatter: recorded corpus finding, not generated)
 		switch k := r.IntN(10); {
 		case k < 5:
 			n := names[r.IntN(len(names))]
@@ -367,16 +429,28 @@ func c8labelProgram(r *rand.Rand) string {
 			used[l.name] = true
 			labs = append(labs, l)
 			if l.ident {
-				sc[l.name] = pending
+				sc[l.name] = ent{pending, 0}
 			}
 		}
 		scopes = append(scopes, sc)
 		defer func() { scopes = scopes[:len(scopes)-1] }()
+		// a plain field: its value becomes referenceable when it is an integer
+		field := func(l lab) {
+			t, isInt, v := value()
+			fmt.Fprintf(&b, "%s%s: %s\n", ind, l.text, t)
+			if l.ident {
+				if isInt {
+					sc[l.name] = ent{intDone, v}
+				} else {
+					sc[l.name] = ent{other, 0}
+				}
+			}
+		}
 		for _, l := range labs {
 			switch k := r.IntN(12); {
 			case k < 3 && depth < 3:
 				if l.ident {
-					sc[l.name] = structField
+					sc[l.name] = ent{other, 0}
 				}
 				fmt.Fprintf(&b, "%s%s: {\n", ind, l.text)
 				body(depth+1, ind+"\t")
@@ -384,44 +458,40 @@ func c8labelProgram(r *rand.Rand) string {
 			case k == 3 && depth < 3:
 				// one-field struct with braces: collapsed by -s
 				if l.ident {
-					sc[l.name] = structField
+					sc[l.name] = ent{other, 0}
 				}
 				scopes = append(scopes, scope{})
-				fmt.Fprintf(&b, "%s%s: {%s: %s}\n", ind, l.text, fmt.Sprintf("%q", names[r.IntN(len(names))]), value())
+				fmt.Fprintf(&b, "%s%s: {%s: %s}\n", ind, l.text, fmt.Sprintf("%q", names[r.IntN(len(names))]), val())
 				scopes = scopes[:len(scopes)-1]
 			case k == 4:
 				cnt++
-				fmt.Fprintf(&b, "%slet L%d = %s\n%sy%d: L%d\n", ind, cnt, value(), ind, cnt, cnt)
-				fmt.Fprintf(&b, "%s%s: %s\n", ind, l.text, value())
+				fmt.Fprintf(&b, "%slet L%d = %s\n%sy%d: L%d\n", ind, cnt, val(), ind, cnt, cnt)
+				field(l)
 			case k == 5:
-				fmt.Fprintf(&b, "%s%s?: %s\n", ind, l.text, value())
+				if l.ident {
+					sc[l.name] = ent{other, 0}
+				}
+				fmt.Fprintf(&b, "%s%s?: %s\n", ind, l.text, val())
 			case k == 6 && depth > 0:
 				fmt.Fprintf(&b, "%s...\n", ind)
-				fmt.Fprintf(&b, "%s%s: %s\n", ind, l.text, value())
+				field(l)
 			case k == 7 && depth > 0:
 				fmt.Fprintf(&b, "%s[string]: _\n", ind)
-				fmt.Fprintf(&b, "%s%s: %s\n", ind, l.text, value())
+				field(l)
 			case k == 8:
 				// a dynamic label and an interpolated label: their references bind like any other
-				if n := ref(); n != "" {
-					cnt++
-					fmt.Fprintf(&b, "%s(\"k%d\\(%s)\"): %d\n", ind, cnt, n, r.IntN(5))
-				}
-				if n := ref(); n != "" {
-					cnt++
-					fmt.Fprintf(&b, "%s\"j%d\\(%s)\": %d\n", ind, cnt, n, r.IntN(5))
-				}
-				fmt.Fprintf(&b, "%s%s: %s\n", ind, l.text, value())
+				cnt++
+				n1, _ := atom()
+				fmt.Fprintf(&b, "%s(\"k%d\\(%s)\"): %d\n", ind, cnt, n1, r.IntN(5))
+				n2, _ := atom()
+				fmt.Fprintf(&b, "%s\"j%d\\(%s)\": %d\n", ind, cnt, n2, r.IntN(5))
+				field(l)
 			case k == 9 && depth > 0:
-				if n := ref(); n != "" {
-					fmt.Fprintf(&b, "%s[=~\"^z\\(%s)\"]: int\n", ind, n)
-				}
-				fmt.Fprintf(&b, "%s%s: %s\n", ind, l.text, value())
+				n1, _ := atom()
+				fmt.Fprintf(&b, "%s[=~\"^z\\(%s)\"]: int\n", ind, n1)
+				field(l)
 			default:
-				fmt.Fprintf(&b, "%s%s: %s\n", ind, l.text, value())
-			}
-			if l.ident && sc[l.name] == pending {
-				sc[l.name] = scalarDone
+				field(l)
 			}
 		}
 	}
